@@ -49,7 +49,8 @@ Base == [entry |-> "xml", signed |-> TRUE, dest |-> "eq", rIss |-> "eq", status 
          rIRT |-> "id1", rTime |-> "in", assns |-> <<GoodAssn(FALSE)>>,
          art |-> [irt |-> "match", iss |-> "eq", status |-> "Success", signed |-> FALSE, time |-> "in"]]
 
-BaseCfg == [eidSet |-> TRUE, audVal |-> "none", cur |-> "acs", allowIdp |-> FALSE,
+\* noIdent: neither an entity ID nor a metadata URL is configured - the SP's identifier is the empty string
+BaseCfg == [eidSet |-> TRUE, noIdent |-> FALSE, audVal |-> "none", cur |-> "acs", allowIdp |-> FALSE,
             reqVal |-> "none", outstanding |-> {"id1"}]
 
 AudSeqs == { <<"alt">>, <<"alt", "wrong">>, <<>>, <<"eq">>, <<"wrong">>, <<"prefix">>, <<"suffix">>, <<"case">>, <<"slash">>, <<"empty">>,
@@ -97,7 +98,11 @@ CfgsC03 == { [BaseCfg EXCEPT !.eidSet = e, !.audVal = a, !.cur = c, !.allowIdp =
 CfgsC03small == { BaseCfg, [BaseCfg EXCEPT !.cur = "query"], [BaseCfg EXCEPT !.cur = "rel"], [BaseCfg EXCEPT !.eidSet = FALSE],
                   [BaseCfg EXCEPT !.audVal = "ok"], [BaseCfg EXCEPT !.audVal = "fail"], [BaseCfg EXCEPT !.allowIdp = TRUE] }
 
-InitC03q == \/ /\ cfg \in CfgsC03
+\* an SP without any identifier of its own: audience restrictions that name somebody are not for it
+NoIdentCfgs == { [BaseCfg EXCEPT !.eidSet = FALSE, !.noIdent = TRUE, !.allowIdp = i] : i \in BOOLEAN }
+NoIdentIns  == UNION { { Vary(b, "auds", v) : v \in { <<>>, <<"wrong">>, <<"wrong", "wrong">>, <<"eq">> } } : b \in {Base, Unsigned(Base)} }
+InitC03q == \/ /\ cfg \in NoIdentCfgs /\ in \in NoIdentIns
+            \/ /\ cfg \in CfgsC03
                /\ in \in Singles(Base) \cup Singles(Unsigned(Base)) \cup TwoConfs \cup TwoAssns \cup NoConfs \cup MethodConfs
             \/ /\ cfg \in CfgsC03small
                /\ in \in Pairs(Base) \cup ArtC03
@@ -106,7 +111,8 @@ InitC03q == \/ /\ cfg \in CfgsC03
                /\ in.dest # "eq"        \* the pairs of the unsigned layout that involve Destination
             \/ /\ cfg \in CfgsC03small
                /\ in \in { [x EXCEPT !.entry = "post"] : x \in Singles(Base) }
-InitC03t == \/ /\ cfg \in CfgsC03
+InitC03t == \/ /\ cfg \in NoIdentCfgs /\ in \in NoIdentIns
+            \/ /\ cfg \in CfgsC03
                /\ in \in Singles(Base) \cup Singles(Unsigned(Base)) \cup TwoConfs \cup TwoAssns \cup NoConfs \cup MethodConfs
                         \cup Pairs(Base) \cup ArtC03
             \/ /\ cfg \in CfgsC03small
@@ -128,22 +134,29 @@ IrtTwoConfs == { [Base EXCEPT !.rIRT = r, !.assns[1].confs = <<Conf("eq", c1, "i
 IrtTwoAssns == { [Base EXCEPT !.assns = <<Assn(FALSE, "eq", <<Conf("eq", c1, "in")>>, <<"eq">>, "in"),
                                            Assn(FALSE, "eq", <<Conf("eq", c2, "in")>>, <<"eq">>, "in")>>] :
                    c1 \in {"id1", "other", "absent"}, c2 \in {"id1", "other", "absent"} }
+\* artreq: the ID of the ArtifactResolve request the SP has just sent - it identifies the back-channel exchange,
+\* it is not a request ID the caller declared outstanding
 ArtC04 == { [Base EXCEPT !.entry = "artifact", !.art.irt = a, !.art.signed = sg, !.signed = ~sg, !.rIRT = r, !.assns[1].confs[1].irt = c] :
-              a \in {"match", "old", "other", "absent"}, sg \in BOOLEAN, r \in {"id1", "other", "absent"}, c \in {"id1", "other", "absent"} }
+              a \in {"match", "old", "other", "absent"}, sg \in BOOLEAN, r \in {"id1", "other", "absent", "artreq"}, c \in {"id1", "other", "absent", "artreq"} }
+\* every subject confirmation counts, whatever its Method
+IrtMethodConfs ==
+  { [Base EXCEPT !.assns[1].confs = <<ConfM("eq", c, "in", m)>>] : c \in IrtCls, m \in {"hok", "sv", "none"} }
+  \cup { [Base EXCEPT !.assns[1].confs = <<Conf("eq", "id1", "in"), ConfM("eq", c, "in", m)>>] : c \in {"other", "pfx", "absent"}, m \in {"hok", "sv", "none"} }
+  \cup { [Base EXCEPT !.assns[1].confs = <<ConfM("eq", c, "in", m), Conf("eq", "id1", "in")>>] : c \in {"other", "pfx", "absent"}, m \in {"hok", "sv", "none"} }
 
 \* the layout in which nothing at the Response level is examined for addressing: Response unsigned
 \* (assertion signed) and no Destination attribute - its InResponseTo must be checked all the same
 NoDest(x) == [Unsigned(x) EXCEPT !.dest = "absent"]
 InitC04q == \/ /\ cfg \in CfgsC04main /\ in \in IrtOneConf \cup IrtNoConfs
             \/ /\ cfg \in { c \in CfgsC04main : c.outstanding \in SomeOut }
-               /\ in \in IrtTwoConfs \cup IrtTwoAssns \cup ArtC04
+               /\ in \in IrtTwoConfs \cup IrtTwoAssns \cup ArtC04 \cup IrtMethodConfs
                         \cup { [x EXCEPT !.entry = "post"] : x \in IrtOneConf }
                         \cup { Unsigned(x) : x \in IrtOneConf }
                         \cup { NoDest(x) : x \in IrtOneConf }
 InitC04t == \/ /\ cfg \in CfgsC04 /\ in \in IrtOneConf \cup IrtNoConfs \cup { Unsigned(x) : x \in IrtOneConf \cup IrtNoConfs }
                                             \cup { NoDest(x) : x \in IrtOneConf \cup IrtNoConfs }
             \/ /\ cfg \in CfgsC04main
-               /\ in \in IrtTwoConfs \cup IrtTwoAssns \cup ArtC04 \cup { [x EXCEPT !.entry = "post"] : x \in IrtOneConf }
+               /\ in \in IrtTwoConfs \cup IrtTwoAssns \cup ArtC04 \cup IrtMethodConfs \cup { [x EXCEPT !.entry = "post"] : x \in IrtOneConf }
 
 \* X ("cross") -----------------------------------------------------------------
 \* One deviation in EACH of the three dimensions at once - addressing (C03), request IDs (C04), instants
